@@ -1,5 +1,779 @@
 package main
 
-// placeholder until the Enforce model (coq/Enforce.v) is wired in: emits the cases whose
-// outcome class (ok / err, decision) the model predicts.
-func c03Struct(c *Ctx) {}
+import (
+	"bufio"
+	"bytes"
+	"fmt"
+	"os"
+	"path/filepath"
+	"strings"
+
+	casbin "github.com/casbin/casbin/v2"
+	"github.com/casbin/casbin/v2/model"
+	"github.com/casbin/casbin/v2/persist"
+	fileadapter "github.com/casbin/casbin/v2/persist/file-adapter"
+	stringadapter "github.com/casbin/casbin/v2/persist/string-adapter"
+)
+
+// ---------------------------------------------------------------------------------------
+// C03, structured stream: cases whose outcome class the extracted model (coq/Enforce.v,
+// coq/Csv.v, coq/Total.v) predicts exactly: ok | err, the decision, the explained rule, what a
+// loader left in the model.  Enforce cases are built with the C01 machinery (c01Build /
+// c01Run: same case format, same observables) but centred on failures; load cases run the real
+// persist.LoadPolicyLine, string adapter, file adapter and NewEnforcer(model, adapter).
+// Everything runs under c03Guarded: a panic or a 20 s hang escaping the real code is a direct
+// violation, and so is an error that comes with decision true.
+// ---------------------------------------------------------------------------------------
+
+var c03Stop bool // a hang was seen: the goroutine is still running, stop generating
+
+// c03RunEnf runs one C01-format case through c01Run into private buffers, checks the
+// property's own predicate on what the implementation answered and forwards everything.
+func c03RunEnf(c *Ctx, cs *c01Case, class string) {
+	if c03Stop {
+		return
+	}
+	var bc, bi, bd bytes.Buffer
+	sub := &Ctx{Prop: c.Prop, Tier: c.Tier, Seed: c.Seed, Rng: c.Rng, Out: c.Out,
+		cases: bufio.NewWriter(&bc), impl: bufio.NewWriter(&bi), direct: bufio.NewWriter(&bd),
+		Dist: map[string]int{}, Distinct: map[string]bool{}}
+	s := c03Guarded(func() { c01Run(sub, cs) })
+	if s != "" {
+		var qs []string
+		for _, rq := range cs.reqs {
+			qs = append(qs, c01ReqSexp(rq))
+		}
+		c.Direct(cs.id, "Enforce family ("+class+"): "+s, fmt.Sprintf("matcher=%q wm=%q policy=%v requests=%s", cs.mText(cs.m[0]), cs.wm, cs.p[0].rules, strings.Join(qs, " ")))
+		if strings.HasPrefix(s, "hang") {
+			c03Stop = true
+		}
+		return
+	}
+	sub.cases.Flush()
+	sub.impl.Flush()
+	sub.direct.Flush()
+	c.cases.Write(bc.Bytes())
+	c.impl.Write(bi.Bytes())
+	c.direct.Write(bd.Bytes())
+	c.NCases += sub.NCases
+	c.NObs += sub.NObs
+	c.NDirect += sub.NDirect
+	if len(c.Samples) < 3 {
+		c.Samples = append(c.Samples, sub.Samples...)
+	}
+	// err => decision false, on every observable of the implementation; BatchEnforce is
+	// consistent with the single calls: results exactly for the requests in front of the first
+	// failing one
+	nerr, nok := 0, 0
+	firstErr := -1
+	batch := ""
+	for _, line := range strings.Split(bi.String(), "\n") {
+		parts := strings.SplitN(line, "\t", 3)
+		if len(parts) < 3 {
+			continue
+		}
+		val := parts[2]
+		if parts[1] == "batch" {
+			batch = val
+			continue
+		}
+		if strings.Contains(val, "err=1") {
+			nerr++
+			if strings.HasSuffix(parts[1], ".enf") && firstErr < 0 {
+				fmt.Sscanf(parts[1], "%d.enf", &firstErr)
+			}
+			if strings.Contains(val, "dec=1") {
+				c.Direct(cs.id, "an Enforce variant ("+parts[1]+") returned an error together with decision true", val)
+			}
+			if strings.Contains(val, "ex=") && !strings.Contains(val, "ex=-1") {
+				c.Direct(cs.id, "EnforceEx returned an error together with an explanation", val)
+			}
+		} else {
+			nok++
+		}
+	}
+	if batch != "" {
+		res := strings.TrimPrefix(strings.Fields(batch)[0], "res=")
+		if strings.Contains(batch, "err=1") {
+			if firstErr < 0 || len(res) != firstErr {
+				c.Direct(cs.id, fmt.Sprintf("BatchEnforce returned an error and %d results, the first failing Enforce is request %d", len(res), firstErr), batch)
+			}
+		} else if len(res) != len(cs.reqs) || firstErr >= 0 {
+			c.Direct(cs.id, fmt.Sprintf("BatchEnforce returned no error and %d results for %d requests (first failing Enforce: %d)", len(res), len(cs.reqs), firstErr), batch)
+		}
+	}
+	c.Count("enforce class=" + class)
+	c.Dist["enforce calls err"] += nerr
+	c.Dist["enforce calls ok"] += nok
+	if nerr > 0 {
+		c.NonTrivial(cs.id)
+	}
+}
+
+// values that are not strings (and strings that are odd)
+func c03Odd() []c01V {
+	return []c01V{c01N(5), c01N(0), c01N(-3), c01B(true), c01B(false), {k: 'z'},
+		c01Map(c01F{"Name", c01S("alice")}, c01F{"Age", c01N(30)}), c01Map(),
+		c01UserV("alice", 30, "bob"), c01ResV("data1", "alice", 3), c01S(""), c01S("\x00"), c01S("a,b"), c01S("\xff\xfe")}
+}
+
+// one well-formed request plus every wrong arity and every odd value at every position
+func c03Reqs(ctx []string, base []c01V, full bool, c *Ctx) []c01Req {
+	cp := func() []c01V { return append([]c01V{}, base...) }
+	out := []c01Req{{ctx, cp()}}
+	out = append(out, c01Req{ctx, []c01V{}})
+	if len(base) > 0 {
+		out = append(out, c01Req{ctx, cp()[:1]}, c01Req{ctx, cp()[:len(base)-1]})
+	}
+	out = append(out, c01Req{ctx, append(cp(), c01S("extra"))},
+		c01Req{ctx, append(cp(), c01N(1), c01S("b"), c01V{k: 'z'}, c01S("d"), c01S("e"))})
+	odd := c03Odd()
+	for i := range base {
+		for j, o := range odd {
+			if !full && c.Rng.Intn(3) != 0 && j > 2 {
+				continue
+			}
+			v := cp()
+			v[i] = o
+			out = append(out, c01Req{ctx, v})
+		}
+	}
+	all := cp()
+	for i := range all {
+		all[i] = odd[c.Rng.Intn(len(odd))]
+	}
+	out = append(out, c01Req{ctx, all})
+	return out
+}
+
+func c03Base(f *c01Family, c *Ctx) []c01V {
+	pos := f.pos(c.Rng)
+	base := make([]c01V, len(pos))
+	for i := range pos {
+		base[i] = pos[i][c.Rng.Intn(len(pos[i]))]
+	}
+	return base
+}
+
+func c03Enforce(c *Ctx) {
+	r := c.Rng
+	fams := c01Families()
+	byName := map[string]*c01Family{}
+	for _, f := range fams {
+		byName[f.name] = f
+	}
+	seq := 0
+	next := func(tag string) string { seq++; return fmt.Sprintf("c03.enf.%s.%d", tag, seq) }
+	rounds := 1
+	if c.Thorough() {
+		rounds = 25
+	}
+	acl, rbac := byName["acl"], byName["rbac"]
+	for round := 0; round < rounds && !c03Stop; round++ {
+		full := round == 0
+		// ---- a. ill-typed and wrong-arity requests against every family, under every effect
+		for _, f := range fams {
+			for _, eff := range c01EffectTags {
+				if !c.Thorough() && eff != "ao" && r.Intn(2) == 0 && f.name != "rbac" && f.name != "deny" {
+					continue
+				}
+				cs := c01Build(r, next("types."+f.name+"."+eff), f, nil, eff, 1+r.Intn(4), r.Intn(5))
+				cs.reqs = c03Reqs(nil, c03Base(f, c), full, c)
+				c03RunEnf(c, cs, "ill-typed/arity "+f.name)
+			}
+		}
+		// non-strings inside g() and keyMatch-style functions at every argument position, with
+		// literals of the wrong type as well
+		for _, eff := range c01EffectTags {
+			ms := []*c01E{
+				c01Call("g", c01V_("r_sub"), c01V_("p_sub")),
+				c01Call("g", c01V_("p_sub"), c01V_("r_sub")),
+				c01Call("g", c01V_("r_sub"), c01Num(1)),
+				c01Call("g", c01V_("r_sub")),
+				c01Call("g"),
+				c01Call("g", c01V_("r_sub"), c01V_("p_sub"), c01V_("r_obj")),
+				c01Call("g", c01V_("r_sub"), c01V_("p_sub"), c01V_("r_obj"), c01V_("r_act")),
+				c01Call("g", c01Bool(true), c01V_("p_sub")),
+				c01Bin("||", c01Call("keyMatch", c01V_("r_obj"), c01V_("p_obj")), c01Call("g", c01V_("r_sub"), c01V_("p_sub"))),
+				c01Call("keyMatch", c01V_("r_obj"), c01Num(3)),
+				c01Call("keyMatch", c01V_("r_obj")),
+				c01Call("keyMatch2", c01V_("r_obj"), c01V_("p_obj"), c01V_("p_act")),
+				c01Call("regexMatch", c01V_("r_act"), c01V_("p_act")),
+				c01Call("ipMatch", c01V_("r_sub"), c01V_("p_sub")),
+				c01Bin("&&", c01In(c01V_("r_sub"), c01V_("r_obj"), c01V_("p_sub")), c01Bool(true)),
+				c01Bin("<", c01V_("r_sub"), c01V_("p_sub")),
+				c01Bin("+", c01V_("r_sub"), c01V_("r_obj")),
+				c01Not(c01V_("r_sub")),
+			}
+			for _, m := range ms {
+				if !c.Thorough() && eff != "ao" && r.Intn(3) != 0 {
+					continue
+				}
+				cs := c01Build(r, next("fn."+eff), rbac, m, eff, 1+r.Intn(3), 1+r.Intn(4))
+				cs.reqs = c03Reqs(nil, c03Base(rbac, c), full, c)
+				c03RunEnf(c, cs, "non-strings in functions")
+			}
+		}
+
+		// ---- b. EnforceContext with unknown names
+		for _, eff := range c01EffectTags {
+			cs := c01Build(r, next("ctx."+eff), rbac, nil, "ao", 3, 3)
+			cs.r = append(cs.r, c01RDef{"r2", "sub, obj"})
+			cs.p = append(cs.p, c01PDef{"p2", "sub, obj, eft", c01RandRules(r, 1+r.Intn(3), [][]string{c01RoleNames, c01Objs, {"allow", "deny", "x"}})})
+			cs.e = append(cs.e, c01EDef{"e2", eff})
+			m2 := c01And(c01Call("g", c01V_("r2_sub"), c01V_("p2_sub")), c01Eq(c01V_("r2_obj"), c01V_("p2_obj")))
+			cs.m = append(cs.m, c01MDef{key: "m2", ast: m2, st: c01RandStyle(r)})
+			cs.reqs = nil
+			for _, ctx := range [][]string{{"r2", "p2", "e2", "m2"}, {"r3", "p2", "e2", "m2"}, {"r2", "p3", "e2", "m2"}, {"r2", "p2", "e3", "m2"}, {"r2", "p2", "e2", "m3"},
+				{"", "", "", ""}, {"r2", "p", "e", "m"}, {"r", "p2", "e", "m"}, {"r", "p", "e2", "m"}, {"r2", "p2", "e", "m2"}, {"r", "p", "e", "m"},
+				{"m", "e", "p", "r"}, {"r9", "p9", "e9", "m9"}, {"r2", "p2", "e2", "\x00"}} {
+				cs.reqs = append(cs.reqs, c01Req{ctx, c01StrVals("alice", "data1")}, c01Req{ctx, c01StrVals("alice", "data1", "read")},
+					c01Req{ctx, nil}, c01Req{ctx, []c01V{c01N(1), c01S("data1")}})
+			}
+			// the custom matcher of these cases is the model's own (no oracle functions)
+			c03RunEnf(c, cs, "unknown context names")
+		}
+
+		// ---- c. stored content: rules of the wrong size, odd eft values
+		for _, eff := range c01EffectTags {
+			for _, shape := range []int{0, 1, 2, 4, 7} {
+				cs := c01Build(r, next("rule-size."+eff), acl, nil, eff, r.Intn(4), 0)
+				bad := make([]string, shape)
+				for i := range bad {
+					bad[i] = []string{"alice", "data1", "read", "x", "", "allow", "deny"}[i]
+				}
+				at := r.Intn(len(cs.p[0].rules) + 1)
+				cs.p[0].rules = append(cs.p[0].rules[:at:at], append([][]string{bad}, cs.p[0].rules[at:]...)...)
+				cs.reqs = c01AllReqs(r, nil, acl.pos(r), true)
+				if !c.Thorough() {
+					cs.reqs = cs.reqs[len(cs.reqs)-9:]
+					cs.reqs = append(cs.reqs, c01Req{nil, c01StrVals("alice", "data1", "read")}, c01Req{nil, c01StrVals("bob", "data2", "write")})
+				}
+				c03RunEnf(c, cs, "stored rule of the wrong size")
+			}
+			for _, fn := range []string{"deny", "priority"} {
+				f := byName[fn]
+				cs := c01Build(r, next("eft."+fn+"."+eff), f, nil, eff, 0, 3)
+				cs.p[0].rules = c01RandRules(r, 2+r.Intn(4), [][]string{c01Subs[:2], c01Objs, c01Acts[:1], {"allow", "deny", "", "ALLOW", "other", "\x00", " allow"}})
+				cs.reqs = c01AllReqs(r, nil, f.pos(r), true)
+				c03RunEnf(c, cs, "odd eft values")
+			}
+		}
+
+		// ---- d. matcher results that are not bool (numbers, strings, nil), with and without rules
+		for _, eff := range c01EffectTags {
+			for _, m := range []*c01E{c01Num(1), c01Num(0), c01Bin("+", c01Num(1), c01Num(1)), c01V_("r_sub"), c01V_("p_sub"), c01Str("true"),
+				c01Bin("-", c01Num(2), c01Num(2)), c01Bin("+", c01V_("p_sub"), c01Num(1)), c01Bin("+", c01V_("r_sub"), c01Bool(true)), c01Acc("r_sub", "Age")} {
+				for _, n := range []int{0, 2} {
+					if !c.Thorough() && eff != "ao" && r.Intn(2) == 0 {
+						continue
+					}
+					cs := c01Build(r, next("non-bool."+eff), acl, m, eff, n, 0)
+					cs.reqs = append(c01AllReqs(r, nil, [][]c01V{c01StrVals("alice", ""), c01StrVals("data1"), c01StrVals("read")}, true),
+						c01Req{nil, []c01V{c01Map(c01F{"Age", c01N(3)}), c01S("data1"), c01S("read")}},
+						c01Req{nil, []c01V{c01N(0), c01S("data1"), c01S("read")}})
+					c03RunEnf(c, cs, "matcher result not bool")
+				}
+			}
+		}
+
+		// ---- e. EnforceWithMatcher: texts that do not parse, unknown functions / identifiers,
+		//         blank and comment-only texts, the empty text (= the model's matcher)
+		type wmT struct {
+			text string
+			ast  *c01E
+		}
+		wms := []wmT{{"r.sub == ", nil}, {"(", nil}, {")", nil}, {"r.sub ==== p.sub", nil}, {"&&", nil}, {"r.sub == 'x", nil}, {"r.sub == p.sub &&", nil},
+			{"foo(r.sub)", nil}, {"g(r.sub, p.sub)", nil}, {"eval(", nil}, {" ", nil}, {"# only a comment", nil}, {"\x00", nil}, {"r.sub in ()", nil},
+			{"", nil},
+			{"r.zzz == p.sub", c01Eq(c01V_("r_zzz"), c01V_("p_sub"))},
+			{"zzz == p.sub", c01Eq(c01V_("zzz"), c01V_("p_sub"))},
+			{"r.sub == p.zzz && r.obj == p.obj", c01And(c01Eq(c01V_("r_sub"), c01V_("p_zzz")), c01Eq(c01V_("r_obj"), c01V_("p_obj")))},
+			{"r.sub.Name == p.sub", c01Eq(c01Acc("r_sub", "Name"), c01V_("p_sub"))},
+			{"r.sub == p.sub  # tail", c01Eq(c01V_("r_sub"), c01V_("p_sub"))},
+			{"1", c01Num(1)}, {"'alice'", c01Str("alice")}, {"r.sub", c01V_("r_sub")},
+			{"true", c01Bool(true)}}
+		for _, w := range wms {
+			eff := c01Pick(r, c01EffectTags)
+			cs := c01Build(r, next("wm"), acl, nil, eff, r.Intn(3), 0)
+			cs.wm, cs.wmAst = w.text, w.ast
+			if w.text == "" {
+				cs.wmAst = cs.m[0].ast
+			}
+			cs.reqs = c03Reqs(nil, c03Base(acl, c), false, c)
+			c03RunEnf(c, cs, "EnforceWithMatcher hostile text")
+		}
+
+		// ---- f. eval(): unparsable, non-bool, nested, self-referential and mutually
+		//         referential sub-rules (F29 repaired: its witness is the first rule here)
+		evf := byName["eval"]
+		selfE := c01ParseEnt{"eval(p_sub_rule)", c01Call("eval", c01V_("p_sub_rule"))}
+		for _, eff := range c01EffectTags {
+			cs := c01Build(r, next("eval.self."+eff), evf, nil, eff, 0, 0)
+			cs.extra = []c01ParseEnt{selfE}
+			cs.p[0].rules = [][]string{{"eval(p.sub_rule)", "data1", "read"}}
+			c03RunEnf(c, cs, "eval self-reference (F29)")
+
+			cs = c01Build(r, next("eval.self-ctx."+eff), evf, nil, eff, 0, 0)
+			cs.extra = []c01ParseEnt{{"eval(p_sub_rule) && true", c01Bin("&&", c01Call("eval", c01V_("p_sub_rule")), c01Bool(true))}}
+			cs.p[0].rules = [][]string{{"eval(p.sub_rule) && true", "data1", "read"}}
+			c03RunEnf(c, cs, "eval self-reference (F29)")
+
+			cs = c01Build(r, next("eval.mutual."+eff), evf, nil, eff, 0, 0)
+			cs.extra = []c01ParseEnt{selfE, {"eval(p_obj)", c01Call("eval", c01V_("p_obj"))}}
+			cs.p[0].rules = [][]string{{"eval(p.obj)", "eval(p.sub_rule)", "read"}}
+			c03RunEnf(c, cs, "eval mutual reference")
+
+			// behind a rule that decides (allow-override): never evaluated
+			cs = c01Build(r, next("eval.behind."+eff), evf, nil, eff, 0, 0)
+			cs.extra = []c01ParseEnt{selfE, {"true", c01Bool(true)}}
+			cs.p[0].rules = [][]string{{"true", "data1", "read"}, {"eval(p.sub_rule)", "data1", "read"}, {"true", "data2", "read"}}
+			c03RunEnf(c, cs, "eval self-reference (F29)")
+
+			cs = c01Build(r, next("eval.mix."+eff), evf, nil, eff, 3+r.Intn(5), 0)
+			c03RunEnf(c, cs, "eval sub-rules (random mix)")
+			cs = c01Build(r, next("eval.empty."+eff), evf, nil, eff, 0, 0)
+			cs.reqs = cs.reqs[len(cs.reqs)-8:]
+			c03RunEnf(c, cs, "eval with empty policy")
+		}
+		// the nesting bound exactly: a chain of n nested eval() calls through n policy columns
+		// (column k holds eval(p.c<k+1>), the last one `true`): 99 and 100 calls are evaluated,
+		// the 101st is the nesting error
+		for _, n := range []int{2, 99, 100, 101, 102} {
+			cols := make([]string, n)
+			rule := make([]string, n)
+			cs := c01Build(r, next(fmt.Sprintf("eval.depth%d", n)), acl, c01Call("eval", c01V_("p_c0")), c01Pick(r, c01EffectTags), 0, 0)
+			cs.extra = []c01ParseEnt{{"true", c01Bool(true)}}
+			for k := 0; k < n; k++ {
+				cols[k] = fmt.Sprintf("c%d", k)
+				rule[k] = fmt.Sprintf("eval(p.c%d)", k+1)
+				cs.extra = append(cs.extra, c01ParseEnt{fmt.Sprintf("eval(p_c%d)", k+1), c01Call("eval", c01V_(fmt.Sprintf("p_c%d", k+1)))})
+			}
+			rule[n-1] = "true"
+			cs.p = []c01PDef{{"p", strings.Join(cols, ", "), [][]string{rule}}}
+			cs.wm = c01Print(cs.m[0].ast, c01Style{dot: true})
+			cs.reqs = []c01Req{{nil, c01StrVals("alice", "data1", "read")}, {nil, c01StrVals("alice")}}
+			c03RunEnf(c, cs, "eval nesting bound")
+		}
+
+		// eval() spelled in a matcher although no rule holds a sub-rule
+		cs := c01Build(r, next("eval.literal"), acl, c01And(c01Call("eval", c01Str("r_sub == p_sub")), c01Eq(c01V_("r_obj"), c01V_("p_obj"))), "ao", 3, 0)
+		cs.extra = []c01ParseEnt{{"r_sub == p_sub", c01Eq(c01V_("r_sub"), c01V_("p_sub"))}}
+		cs.m[0].st.sq = false
+		cs.wm = c01Print(cs.m[0].ast, c01Style{})
+		cs.reqs = c03Reqs(nil, c03Base(acl, c), false, c)
+		c03RunEnf(c, cs, "eval of a literal")
+		for _, arg := range []*c01E{c01Num(1), c01V_("r_sub"), c01Bool(true)} {
+			cs = c01Build(r, next("eval.arg"), acl, c01And(c01Call("eval", arg), c01Eq(c01V_("r_obj"), c01V_("p_obj"))), "ao", 2, 0)
+			cs.extra = []c01ParseEnt{{"alice", c01V_("alice")}}
+			cs.wm = c01Print(cs.m[0].ast, c01Style{})
+			cs.reqs = c03Reqs(nil, c03Base(acl, c), false, c)
+			c03RunEnf(c, cs, "eval of a non-string")
+		}
+
+		// ---- g. g() in the matcher without a role definition; an unknown function
+		for _, m := range []*c01E{
+			c01And(c01Call("g", c01V_("r_sub"), c01V_("p_sub")), c01Eq(c01V_("r_obj"), c01V_("p_obj"))),
+			c01And(c01Call("g2", c01V_("r_sub"), c01V_("p_sub")), c01Eq(c01V_("r_obj"), c01V_("p_obj"))),
+			c01And(c01Call("foo", c01V_("r_sub")), c01Eq(c01V_("r_obj"), c01V_("p_obj")))} {
+			cs = c01Build(r, next("no-role-def"), acl, m, c01Pick(r, c01EffectTags), 2, 0)
+			cs.reqs = c03Reqs(nil, c03Base(acl, c), false, c)
+			c03RunEnf(c, cs, "missing role definition / unknown function")
+		}
+
+		// ---- h. disabled enforcer: everything is allowed without error, broken requests included
+		cs = c01Build(r, next("disabled"), rbac, nil, c01Pick(r, c01EffectTags), 3, 3)
+		cs.disabled = true
+		cs.reqs = c03Reqs(nil, c03Base(rbac, c), full, c)
+		cs.reqs = append(cs.reqs, c01Req{[]string{"r9", "p9", "e9", "m9"}, c01StrVals("a")})
+		c03RunEnf(c, cs, "disabled enforcer")
+
+		// ---- i. cyclic role graphs under every effect (F12 repaired: subjectPriority included;
+		//         the load-time side of F12 is in the text cases below), unsupported effect
+		for _, eff := range append(append([]string{}, c01EffectTags...), "un") {
+			for _, fn := range []string{"rbac", "priority", "rbac-domains"} {
+				f := byName[fn]
+				cs = c01Build(r, next("cycle."+fn+"."+eff), f, nil, eff, 4, 0)
+				for gi := range cs.g {
+					rules := [][]string{{"alice", "admin"}, {"admin", "user"}, {"user", "alice"}, {"bob", "bob"}, {"user", "root"}, {"root", "user"}}
+					if cs.g[gi].count == 3 {
+						for i := range rules {
+							rules[i] = append(rules[i], c01Doms[i%2])
+						}
+						rules = append(rules, []string{"alice", "admin", "d2"}, []string{"admin", "alice", "d2"})
+					}
+					cs.g[gi].rules = rules
+				}
+				if !c.Thorough() {
+					cs.reqs = append(cs.reqs[:6:6], cs.reqs[len(cs.reqs)-6:]...)
+				}
+				c03RunEnf(c, cs, "cyclic role graph")
+			}
+		}
+
+		// ---- j. random matchers with a high share of ill-typed sub-expressions
+		nr := 30
+		if c.Thorough() {
+			nr = 120
+		}
+		for i := 0; i < nr; i++ {
+			f := fams[r.Intn(len(fams))]
+			f.vocab.illTyped = 300
+			f.vocab.gs = f.gs
+			m := f.vocab.genBool(r, 1+r.Intn(3))
+			f.vocab.illTyped = 0
+			cs = c01Build(r, next("rnd."+f.name), f, m, c01Pick(r, c01EffectTags), r.Intn(4), r.Intn(5))
+			cs.reqs = c03Reqs(nil, c03Base(f, c), false, c)
+			c03RunEnf(c, cs, "random ill-typed matcher")
+		}
+	}
+}
+
+// ---------------------------------------------------------------------------------------
+// loading
+// ---------------------------------------------------------------------------------------
+
+func c03ModelText(name string) string {
+	switch name {
+	case "flat":
+		return "[request_definition]\nr = sub, obj, act\n[policy_definition]\np = sub, obj, act\n[role_definition]\ng = _, _\n[policy_effect]\ne = some(where (p.eft == allow))\n[matchers]\nm = g(r.sub, p.sub) && r.obj == p.obj && r.act == p.act\n"
+	case "dom":
+		return "[request_definition]\nr = sub, dom, obj, act\n[policy_definition]\np = sub, dom, obj, act\n[role_definition]\ng = _, _, _\n[policy_effect]\ne = some(where (p.eft == allow))\n[matchers]\nm = g(r.sub, p.sub, r.dom) && r.dom == p.dom && r.obj == p.obj && r.act == p.act\n"
+	case "sp":
+		return "[request_definition]\nr = sub, obj, act\n[policy_definition]\np = sub, obj, act, eft\n[role_definition]\ng = _, _\n[policy_effect]\ne = subjectPriority(p.eft) || deny\n[matchers]\nm = g(r.sub, p.sub) && r.obj == p.obj && r.act == p.act\n"
+	}
+	panic("c03ModelText " + name)
+}
+
+func c03Model(name string) model.Model {
+	m, err := model.NewModelFromString(c03ModelText(name))
+	if err != nil {
+		panic(err)
+	}
+	return m
+}
+
+func c03Rules(m model.Model, sec, key string) string {
+	if a := m[sec][key]; a != nil {
+		return rulesKey(a.Policy)
+	}
+	return "<nil>"
+}
+
+// single lines through persist.LoadPolicyLine, loaded one after the other into one model
+func c03LineCase(c *Ctx, id, name string, lines []string) {
+	if c03Stop {
+		return
+	}
+	m := c03Model(name)
+	outs := make([]string, len(lines))
+	nerr := 0
+	for i, l := range lines {
+		l := l
+		var err error
+		if s := c03Guarded(func() { err = persist.LoadPolicyLine(l, m) }); s != "" {
+			c.Direct(id, "persist.LoadPolicyLine: "+s, fmt.Sprintf("%q", l))
+			if strings.HasPrefix(s, "hang") {
+				c03Stop = true
+			}
+			return
+		}
+		outs[i] = errStr(err)
+		if err != nil {
+			nerr++
+		}
+	}
+	c.Case(id, "line "+name+" "+QL(lines))
+	for i := range lines {
+		c.Obs(id, I(i), outs[i])
+	}
+	c.Obs(id, "end", fmt.Sprintf("p=%s g=%s r=%s e=%s m=%s", c03Rules(m, "p", "p"), c03Rules(m, "g", "g"), c03Rules(m, "r", "r"), c03Rules(m, "e", "e"), c03Rules(m, "m", "m")))
+	c.Count("load lines")
+	c.Dist["load line err"] += nerr
+	c.Dist["load line ok"] += len(lines) - nerr
+	if nerr > 0 {
+		c.NonTrivial(id)
+	}
+}
+
+var c03Dir string
+
+// a whole text through the string adapter or the file adapter, then through NewEnforcer
+func c03TextCase(c *Ctx, id, adapter, name, text string) {
+	if c03Stop {
+		return
+	}
+	mk := func() persist.Adapter {
+		if adapter == "str" {
+			return stringadapter.NewAdapter(text)
+		}
+		path := filepath.Join(c03Dir, "policy.csv")
+		if err := os.WriteFile(path, []byte(text), 0o644); err != nil {
+			panic(err)
+		}
+		return fileadapter.NewAdapter(path)
+	}
+	replay := fmt.Sprintf("adapter=%s model=%s text=%q", adapter, name, text)
+	if len(replay) > 2000 {
+		replay = replay[:2000] + "..."
+	}
+	// the adapter alone, on a fresh model: what a failed load leaves behind is visible here
+	m := c03Model(name)
+	var err error
+	if s := c03Guarded(func() { err = mk().LoadPolicy(m) }); s != "" {
+		c.Direct(id, adapter+" adapter LoadPolicy: "+s, replay)
+		c03Stop = c03Stop || strings.HasPrefix(s, "hang")
+		return
+	}
+	obsA := fmt.Sprintf("%s p=%s g=%s", errStr(err), c03Rules(m, "p", "p"), c03Rules(m, "g", "g"))
+	// the constructor on top of it
+	var e *casbin.Enforcer
+	var err2 error
+	if s := c03Guarded(func() { e, err2 = casbin.NewEnforcer(c03Model(name), mk()) }); s != "" {
+		c.Direct(id, "NewEnforcer(model, "+adapter+" adapter): "+s, replay)
+		c03Stop = c03Stop || strings.HasPrefix(s, "hang")
+		return
+	}
+	obsE := "err"
+	if err2 == nil && e != nil {
+		p, _ := e.GetPolicy()
+		g, _ := e.GetGroupingPolicy()
+		obsE = fmt.Sprintf("ok p=%s g=%s", sortedRulesKey(p), sortedRulesKey(g))
+		// whatever was loaded: enforcement on it is total and fails closed
+		if s := c03Guarded(func() {
+			for _, rq := range [][]interface{}{{"alice", "data1", "read"}, {"a", "d", "read"}, {"", "", ""}, {"alice", "data1"}, {1, "data1", "read"}, {"alice", "d1", "data1", "read"}} {
+				ok, err := e.Enforce(rq...)
+				if err != nil && ok {
+					panic(fmt.Sprint("error with decision true for ", rq))
+				}
+			}
+		}); s != "" {
+			c.Direct(id, "Enforce after loading: "+s, replay)
+			c03Stop = c03Stop || strings.HasPrefix(s, "hang")
+		}
+	}
+	c.Case(id, "text "+adapter+" "+name+" "+Q(text))
+	c.Obs(id, "adapter", obsA)
+	c.Obs(id, "enforcer", obsE)
+	c.Count("load text " + adapter + " " + name)
+	if err != nil || err2 != nil {
+		c.Count("load text err")
+		c.NonTrivial(id)
+	} else {
+		c.Count("load text ok")
+	}
+}
+
+var c03Blanks = []string{" ", "\t", "\r", "\v", "\f", "\u0085", "\u00a0", "\u1680", "\u2000", "\u2003", "\u200a", "\u2028", "\u2029", "\u202f", "\u205f", "\u3000"}
+var c03NearBlanks = []string{"\xc2", "\xe2\x80", "\xe2", "\xa0", "\x85", "\u200b", "\ufeff", "\xc0\xa0", "\x80", "\xff", "\xff\xfe", "\xef\xbf\xbd", "\xe2\x80\x8b", "\xe1\x9a\x81"}
+var c03Words = []string{"alice", "bob", "admin", "data1", "data2", "read", "write", "allow", "deny", "a", "r", "root", "x y", "é", "日本", "a#b", "0", ""}
+var c03Keys = []string{"p", "g", "p", "g", "p", "p2", "g2", "e", "m", "r", "", "q", "P", "pp", " p", "p ", "#", "#p", "\x00", "p\x00"}
+
+func c03Piece(c *Ctx) string {
+	pick := func(xs []string) string { return xs[c.Rng.Intn(len(xs))] }
+	switch x := c.Rng.Intn(100); {
+	case x < 45:
+		return pick(c03Words)
+	case x < 55:
+		return pick(c03Blanks) + pick(c03Words) + pick(c03Blanks)
+	case x < 62:
+		return pick(c03NearBlanks) + pick(c03Words)
+	case x < 70:
+		return "\"" + pick(c03Words) + "\""
+	case x < 75:
+		return "\"" + pick(c03Words) + "," + pick(c03Words) + "\""
+	case x < 79:
+		return "\"" + pick(c03Words) + "\"\"" + pick(c03Words) + "\""
+	case x < 83:
+		return pick(c03Words) + "\"" + pick(c03Words) // bare quote
+	case x < 86:
+		return "\"" + pick(c03Words) // unterminated
+	case x < 89:
+		return "\"" + pick(c03Words) + "\" x" // text behind the closing quote
+	case x < 92:
+		return pick(c03Words) + "\x00" + pick(c03Words)
+	case x < 95:
+		return "#" + pick(c03Words)
+	case x < 97:
+		return pick(c03Words) + "\r"
+	default:
+		return pick(c03Blanks)
+	}
+}
+
+func c03Line(c *Ctx, arity int) string {
+	pick := func(xs []string) string { return xs[c.Rng.Intn(len(xs))] }
+	n := arity
+	key := "p"
+	if c.Rng.Intn(3) == 0 {
+		key, n = "g", arity-1
+	}
+	switch c.Rng.Intn(10) {
+	case 0:
+		key = pick(c03Keys)
+	case 1:
+		n = c.Rng.Intn(7)
+	}
+	parts := []string{key}
+	for i := 0; i < n; i++ {
+		parts = append(parts, c03Piece(c))
+	}
+	sep := pick([]string{", ", ",", ", ", " ,", ",\t", ", ", ",\u00a0"})
+	line := strings.Join(parts, sep)
+	switch c.Rng.Intn(14) {
+	case 0:
+		line = pick(c03Blanks) + line
+	case 1:
+		line += pick(c03Blanks)
+	case 2:
+		line += "\r"
+	case 3:
+		line = "#" + line
+	case 4:
+		line += ","
+	case 5:
+		line = "," + line
+	}
+	return strings.ReplaceAll(line, "\n", " ")
+}
+
+// hand-picked hostile lines (no LF: the domain of LoadPolicyLine's model)
+func c03CuratedLines() []string {
+	long := strings.Repeat("a", 70000)
+	return []string{
+		",a", ",", ",,", "", " ", "#", "# p, a, b, c", " # p, a, b, c", "p", "p,", "p, ", "g", "g, a", "g, a, b", "g, a, b, c", "g, a, b, c, d",
+		"p, a, b, c", "p, a, b, c", "p,a,b,c", " p , a , b , c ", "p, a, b", "p, a, b, c, d", "p, a, b, c,", "q, a, b, c", "P, a, b, c", "p2, a, b, c", "g2, a, b",
+		"e, x", "m, x", "r, a, b, c", "e", "m", "r, a",
+		"\"", "\"\"", "\"p\", \"a\", \"b\", \"c\"", "p, \"a,b\", c, d", "p, \"a\"\"b\", c, d", "p, a\"b, c, d", "p, \"a\" b, c, d", "p, \"a, b, c", "p, a, b, \"c", "p, a, b, c\"",
+		"p, a, b, \"c\"\r", "p, a, b, c\r", "p, a\rb, c, d", "\rp, a, b, c", "p, a, b, c\r\r", "\r",
+		"p, \x00, b, c", "\x00", "p\x00, a, b, c", "p, a, b, c\x00",
+		"p, \xff, \xfe\xff, c", "p, \xc2, \xe2\x80, c", "p, \u00a0a\u2003, \u3000b, c\u2028", "\u00a0p, a, b, c", "p, a, b,\u0085c", "\u3000", "p, \u200ba, b, c",
+		"p, #a, b, c", "p, a, b, #c", "#", "##", "p, a, b, c # tail",
+		"p, " + long + ", b, c", long, "p, a, b, " + strings.Repeat("\"\"", 3000), "p, \"" + strings.Repeat("\"\"", 2000) + "\", b, c",
+		strings.Repeat(",", 3000), "p" + strings.Repeat(", a", 3000), strings.Repeat(" ", 5000) + "p, a, b, c", "p, a, b, c" + strings.Repeat("\t", 5000),
+		"g, a, b, " + long, "p, \"" + long + "\", b, c",
+	}
+}
+
+func c03Loading(c *Ctx) {
+	r := c.Rng
+	dir, err := os.MkdirTemp("", "verif-c03s-")
+	if err != nil {
+		panic(err)
+	}
+	defer os.RemoveAll(dir)
+	c03Dir = dir
+	seq := 0
+	next := func(tag string) string { seq++; return fmt.Sprintf("c03.load.%s.%d", tag, seq) }
+
+	// ---- single lines: the curated list (every model), then generated ones
+	cur := c03CuratedLines()
+	for _, name := range []string{"flat", "dom", "sp"} {
+		for i := 0; i < len(cur); i += 8 {
+			j := i + 8
+			if j > len(cur) {
+				j = len(cur)
+			}
+			c03LineCase(c, next("line.cur."+name), name, cur[i:j])
+		}
+	}
+	nl := 400
+	if c.Thorough() {
+		nl = 20000
+	}
+	for i := 0; i < nl; i++ {
+		name := []string{"flat", "dom", "sp"}[r.Intn(3)]
+		ar := map[string]int{"flat": 3, "dom": 4, "sp": 4}[name]
+		k := 1 + r.Intn(8)
+		lines := make([]string, k)
+		for j := range lines {
+			lines[j] = c03Line(c, ar)
+			if j > 0 && r.Intn(8) == 0 {
+				lines[j] = lines[r.Intn(j)] // duplicates
+			}
+		}
+		c03LineCase(c, next("line."+name), name, lines)
+	}
+
+	// ---- whole texts through both adapters
+	chain := func(n int) string { // a -> n1 -> ... acyclic
+		var b strings.Builder
+		for i := 0; i < n; i++ {
+			fmt.Fprintf(&b, "g, n%d, n%d\n", i+1, i)
+		}
+		return b.String()
+	}
+	diamonds := func(k int) string { // 2^k paths from the root: exponential before F12's repair
+		var b strings.Builder
+		b.WriteString("g, L0, root\ng, R0, root\n")
+		for i := 0; i < k; i++ {
+			fmt.Fprintf(&b, "g, L%d, L%d\ng, L%d, R%d\ng, R%d, L%d\ng, R%d, R%d\n", i+1, i, i+1, i, i+1, i, i+1, i)
+		}
+		return b.String()
+	}
+	pol := "p, a, d, read, allow\np, r, d, read, deny\np, root, d, read, allow\n"
+	long := strings.Repeat("x", 65536)
+	texts := []string{
+		"", "\n", "\n\n\n", " ", "\r\n", "#\n", "# comment\np, alice, data1, read\n",
+		"p, alice, data1, read\ng, alice, admin\n", "p, alice, data1, read\r\ng, alice, admin\r\n", "p, alice, data1, read\n\n\ng, alice, admin",
+		"  p, alice, data1, read  \n\tg, alice, admin\t\n", "p, alice, data1, read\n,a\np, bob, data2, write\n", ",a", ",a\n",
+		"p, alice, data1, read\np, alice, data1\np, bob, data2, write\n", "p, alice, data1, read\nq, x\ng, alice, admin\n",
+		"p, alice, data1, read\np, \"bob, data2, write\ng, alice, admin\n", "p, alice, data1, read\np, b\"ob, data2, write\ng, alice, admin\n",
+		"p, alice, data1, read\np, alice, data1, read\np,alice,data1,read\n", "p, \"a,b\", \"c\"\"d\", e\n", "p, alice, data1, read\x00\n\x00\ng, a, b\n",
+		"p, \xff\xfe, data1, read\ng, \xc2, \xe2\x80\n", "\u00a0p, alice, data1, read\u3000\n\u2028g, alice, admin\u2029\n", "p, alice, data1, read\rg, alice, admin\n",
+		"p, alice, data1, read\n # p, x, y, z\ng, alice, admin\n", "g, alice\n", "g, alice, admin, extra\ng, alice, admin, d2\n",
+		// F12 (repaired): a cycle below a root, a cycle without a root, a self loop, diamonds
+		pol + "g, a, root\ng, b, a\ng, a, b\n", pol + "g, a, r\ng, b, a\ng, a, b\ng, r, r\n", pol + "g, a, b\ng, b, a\n", pol + "g, a, a\n", pol + "g, a, root\ng, a, a\n",
+		pol + "g, a, root\ng, b, a\ng, c, b\ng, a, c\n", pol + "g, a, root\ng, root, a\n", pol + diamonds(40), pol + diamonds(40) + "g, L0, L40\n", pol + chain(60),
+		pol + "g, a, root, d1\ng, root, a, d1\n", pol + "g, a, root\ng, b, a\n,a\ng, a, b\n",
+		// the Scanner's limit: a line of 65535 bytes passes, one of 65536 ends the scan
+		"p, alice, data1, read\n#" + long[:65534] + "\ng, alice, admin\n", "p, alice, data1, read\n#" + long[:65535] + "\ng, alice, admin\n",
+		"p, alice, data1, read\n" + long, "p, alice, data1, read\n#" + long[:65534] + "\r\ng, alice, admin\n", "p, alice, data1, " + long + "\n",
+	}
+	models := []string{"flat", "sp", "dom"}
+	for ti, text := range texts {
+		for _, ad := range []string{"str", "file"} {
+			for _, name := range models {
+				if name == "dom" && ti%3 != 0 {
+					continue
+				}
+				c03TextCase(c, next("text."+ad+"."+name), ad, name, text)
+			}
+		}
+	}
+	nt := 150
+	if c.Thorough() {
+		nt = 6000
+	}
+	for i := 0; i < nt; i++ {
+		name := models[r.Intn(2)]
+		ar := map[string]int{"flat": 3, "sp": 4}[name]
+		var b strings.Builder
+		k := r.Intn(9)
+		for j := 0; j < k; j++ {
+			switch r.Intn(12) {
+			case 0:
+				b.WriteString(fmt.Sprintf("g, %s, %s", c01Pick(r, []string{"a", "b", "c", "root"}), c01Pick(r, []string{"a", "b", "c", "root"})))
+			case 1:
+				b.WriteString("")
+			case 2, 3, 4, 5, 6:
+				// a clean rule, so that something is loaded before (and after) a hostile line
+				f := []string{"p", c01Pick(r, c01Subs), c01Pick(r, c01Objs), c01Pick(r, c01Acts)}
+				if ar == 4 {
+					f = append(f, c01Pick(r, []string{"allow", "deny"}))
+				}
+				b.WriteString(strings.Join(f, c01Pick(r, []string{", ", ",", " , "})))
+			default:
+				b.WriteString(c03Line(c, ar))
+			}
+			b.WriteString(c01Pick(r, []string{"\n", "\n", "\n", "\r\n", "\n\n", ""}))
+		}
+		ad := []string{"str", "file"}[r.Intn(2)]
+		c03TextCase(c, next("text."+ad+"."+name), ad, name, b.String())
+	}
+}
+
+func c03Struct(c *Ctx) {
+	c03Enforce(c)
+	c03Loading(c)
+}
